@@ -3,8 +3,8 @@
 META = dict(
     engine="E-KV",
     technique="Lean 4 proof on a model of Commit as a list of atomic DB writes (crash = prefix; recovery = LoadLatestVersion with IAVL's LoadVersion quirks; re-execution with SaveVersion's idempotent branch) + exhaustive crash-point enumeration on the real rootmulti.Store behind a write-recording DB wrapper",
-    level_text="Kernel-checked, for every legal history with at least one committed version and every crash index: LoadLatestVersion on the crashed disk reports the last commit id and every substore at the committed version with exactly the committed tree (or the new id and trees once the final batch is written); re-executing the block in any iteration order reports the uninterrupted run's commit id and leaves a good multistore, so later blocks agree too; SaveVersion of an existing version with equal hash is a no-op. Kernel-checked counterexample for the very first commit (version 0 -> 1). Tie: every Set/Delete/Batch.Write reaching the DB during each Commit is recorded; for every commit and EVERY crash index the DB state at that point is copied, a fresh store is opened on it, LastCommitID/contents/root hashes are compared with the last fully committed block, the block is re-executed (and one more block after it) and the commit ids compared with the uninterrupted run; the observed write sequence must have the shape the model assumes and the model must reproduce every disk state byte for byte.",
-    level_note="PARTIAL: atomicity/durability of a single Batch.Write (tm-db/goleveldb), torn writes and the filesystem are assumed, not modelled. The statements are proved per IAVL substore and for the whole multistore (crash_recover_state / crash_reexecute_hash: every prefix of the |stores|+1 atomic writes, any iteration order before and after the restart, every legal history with at least one committed version). KNOWN FINDING (genuine defect, reproduced on the real code): a crash between substore batches of the very first commit is not recoverable (iavl LoadVersion(0) = latest on disk). SHA-256 is a parameter.",
+    level_text="Kernel-checked, for every legal history (including the very first commit) and every crash index: LoadLatestVersion on the crashed disk reports the last commit id and every substore at the committed version with exactly the committed tree (or the new id and trees once the final batch is written); re-executing the block in any iteration order reports the uninterrupted run's commit id and leaves a good multistore, so later blocks agree too; SaveVersion of an existing version with equal hash is a no-op. A kernel-checked counterexample documents the behaviour before repo commit 2a0e88a (first commit not recoverable) next to the theorem that the fixed recovery handles the same scenario. Tie: every Set/Delete/Batch.Write reaching the DB during each Commit is recorded; for every commit and EVERY crash index the DB state at that point is copied, a fresh store is opened on it, LastCommitID/contents/root hashes are compared with the last fully committed block, the block is re-executed (and one more block after it) and the commit ids compared with the uninterrupted run; the observed write sequence must have the shape the model assumes and the model must reproduce every disk state byte for byte.",
+    level_note="PARTIAL: atomicity/durability of a single Batch.Write (tm-db/goleveldb), torn writes and the filesystem are assumed, not modelled. The statements are proved per IAVL substore and for the whole multistore (crash_recover_state / crash_reexecute_hash: every prefix of the |stores|+1 atomic writes, any iteration order before and after the restart, every legal history, every height). The first-commit defect found by this check (iavl LoadVersion(0) = latest on disk) was fixed by repo commit 2a0e88a; the model is of the fixed code and reverting the fix makes the check print VIOLATION lines with failing inputs. SHA-256 is a parameter.",
 )
 
 
